@@ -98,3 +98,47 @@ Section System.
     - exists []. rewrite app_nil_r. reflexivity.
   Qed.
 End System.
+
+Lemma Forall2_nth {A B} (P : A -> B -> Prop) l l' k a b :
+  Forall2 P l l' -> nth_error l k = Some a -> nth_error l' k = Some b -> P a b.
+Proof.
+  intros H. revert k. induction H as [|x y l l' Hxy H IH]; intros k Ha Hb; destruct k; cbn in *; try discriminate.
+  - inversion Ha; inversion Hb; subst. exact Hxy.
+  - eapply IH; eassumption.
+Qed.
+
+(* corollaries used for C08: two nodes with the same initial state that consumed equally long
+   prefixes hold the same state (whatever the schedules were: batching of polls, interleaving with
+   postings); in particular a node replaying the log from its initial state reaches the state of a
+   node that followed it live *)
+Section Determinism.
+  Variables (state msg : Type) (step : state -> msg -> state).
+
+  Theorem same_prefix_same_state (init : list state) sched i j si sj ni nj :
+    nth_error init i = Some si -> nth_error init j = Some sj -> si = sj ->
+    nth_error (nodes _ _ (run _ _ step init sched)) i = Some ni ->
+    nth_error (nodes _ _ (run _ _ step init sched)) j = Some nj ->
+    snd ni = snd nj -> fst ni = fst nj.
+  Proof.
+    intros Hi Hj Heq Hni Hnj Hlen.
+    pose proof (run_inv _ _ step init sched) as H.
+    destruct (Forall2_nth _ _ _ _ _ _ H Hi Hni) as [_ Ei]. destruct (Forall2_nth _ _ _ _ _ _ H Hj Hnj) as [_ Ej].
+    rewrite Ei, Ej, Heq, Hlen. reflexivity.
+  Qed.
+
+  (* across two different runs (e.g. a live run and a later replay) with boards that agree on the
+     consumed prefix *)
+  Theorem replay_reaches_live_state (init1 init2 : list state) sched1 sched2 i j s n1 n2 k :
+    nth_error init1 i = Some s -> nth_error init2 j = Some s ->
+    nth_error (nodes _ _ (run _ _ step init1 sched1)) i = Some n1 ->
+    nth_error (nodes _ _ (run _ _ step init2 sched2)) j = Some n2 ->
+    snd n1 = k -> snd n2 = k ->
+    firstn k (board _ _ (run _ _ step init1 sched1)) = firstn k (board _ _ (run _ _ step init2 sched2)) ->
+    fst n1 = fst n2.
+  Proof.
+    intros Hi Hj Hn1 Hn2 Hk1 Hk2 Hb.
+    destruct (Forall2_nth _ _ _ _ _ _ (run_inv _ _ step init1 sched1) Hi Hn1) as [_ E1].
+    destruct (Forall2_nth _ _ _ _ _ _ (run_inv _ _ step init2 sched2) Hj Hn2) as [_ E2].
+    rewrite E1, E2, Hk1, Hk2, Hb. reflexivity.
+  Qed.
+End Determinism.
